@@ -19,23 +19,23 @@ Definition srt_event_of_code (ct : Z * Z) : srt_event :=
   let '(c, t) := ct in
   if c =? 0 then EvStart t None else if c =? 1 then EvStart t (Some ColorAbsent) else if c =? 2 then EvStart t (Some ColorNoValue)
   else if c =? 3 then EvStart t (Some ColorBad) else if c =? 4 then EvStart t (Some ColorGood) else if c =? 5 then EvEnd t else EvData.
-Definition vtt_event_of_code (c : Z) : vtt_event :=
-  if c =? 0 then TStartRuby else if c =? 1 then TStartRt else if c =? 2 then TStartSpan else if c =? 3 then TTimestamp
-  else if c =? 4 then TEnd else TData (Z.to_nat (c - 10)).
+Definition vtt_event_of_code (ct : Z * Z) : vtt_event :=
+  let '(c, t) := ct in
+  if c =? 0 then TStartRuby t else if c =? 1 then TStartRt t else if c =? 2 then TStartSpan t else if c =? 3 then TTimestamp
+  else if c =? 4 then TEnd t else TData (Z.to_nat (c - 10)).
 (* (attached, event codes, expected outcome code) *)
 Definition srt_cursor_case (c : Z * list (Z * Z) * Z) : bool :=
   let '(a, es, code) := c in outcome_code (srt_cursor_run (a =? 1) (map srt_event_of_code es)) =? code.
-Definition vtt_cursor_case (c : Z * list Z * Z) : bool :=
+Definition vtt_cursor_case (c : Z * list (Z * Z) * Z) : bool :=
   let '(a, es, code) := c in outcome_code (vtt_cursor_run (a =? 1) (map vtt_event_of_code es)) =? code.
-(* the triggers agree with the failures: internal outcome => a trigger fires (the partial theorems, evaluated) *)
-Definition srt_cursor_trigger_case (c : Z * list (Z * Z) * Z) : bool :=
-  let '(a, es, code) := c in
-  let ev := map srt_event_of_code es in
-  implb (20 <=? code) (srt_font_novalue ev).
-Definition vtt_cursor_trigger_case (c : Z * list Z * Z) : bool :=
+(* the theorems, evaluated on what the code did: _TextParser never ends with an internal error (C18_srt_cursor_total);
+   _TextCueParser does only when the cue has a <ruby> tag (C18_vtt_cursor_partial) *)
+Definition srt_cursor_total_case (c : Z * list (Z * Z) * Z) : bool :=
+  let '(a, es, code) := c in code <? 20.
+Definition vtt_cursor_trigger_case (c : Z * list (Z * Z) * Z) : bool :=
   let '(a, es, code) := c in
   let ev := map vtt_event_of_code es in
-  implb (20 <=? code) (vtt_stray_end ev || vtt_has_ruby ev).
+  implb (20 <=? code) (vtt_has_ruby ev).
 
 (* SCC: whole reader; one line; one word *)
 Definition scc_case (c : text * list Z * Z) : bool :=
@@ -58,14 +58,10 @@ Definition stl_rows_of (l : list Z) : stl_rows :=
 Definition stl_case (c : list Z * list Z * list (Z * Z) * list Z * Z) : bool :=
   let '(st, rw, rle, oracle, code) := c in
   outcome_code (stl_run {| cfg_start := stl_start_of st; cfg_rows := stl_rows_of rw |} (subs oracle) (rle_expand rle)) =? code.
-(* internal outcome of the model not taken from the oracle => the trigger fires (the partial theorem, evaluated) *)
-Definition stl_trigger_case (c : list Z * list Z * list (Z * Z) * list Z * Z) : bool :=
+(* the theorem, evaluated on what the code did: an internal outcome is one that tf.to_model raised (C18_stl_internal_origin) *)
+Definition stl_total_case (c : list Z * list Z * list (Z * Z) * list Z * Z) : bool :=
   let '(st, rw, rle, oracle, code) := c in
-  let cfg := {| cfg_start := stl_start_of st; cfg_rows := stl_rows_of rw |} in
-  let file := rle_expand rle in
-  let gsi := firstn 1024 file in
-  implb ((20 <=? code) && negb (existsb (fun o => o =? code) oracle))
-        (trig_zero_rows cfg gsi).
+  implb (20 <=? code) (existsb (fun o => o =? code) oracle).
 
 (* int(bytes([a, b])) for a whole row b = 0..255: -100000 encodes ValueError *)
 Definition bytes_int_row (a : Z) (row : list Z) : bool :=
@@ -80,7 +76,7 @@ Definition srt_view_case (c : text * list Z) : bool :=
   let '(l, fl) := c in let v := srt_classify l in text_eqb [b2z (sv_blank v); b2z (sv_counter v); b2z (sv_tc v)] fl.
 Definition vtt_view_case (c : text * list Z) : bool :=
   let '(l, fl) := c in let v := vtt_classify l in
-  text_eqb [b2z (vv_blank v); b2z (vv_note v); b2z (vv_style v); b2z (vv_arrow v); b2z (vv_cue v); b2z (vv_overflow v)] fl.
+  text_eqb [b2z (vv_blank v); b2z (vv_note v); b2z (vv_style v); b2z (vv_arrow v); b2z (vv_cue v)] fl.
 
 (* S on an observed run: (reader code, downstream codes, verdict of the harness) *)
 Definition spec_case (c : Z * list Z * Z) : bool :=
